@@ -22,6 +22,7 @@ type CExpr struct {
 	Props []string
 	ast   ast.Expr
 	Line  int
+	GhostOnly string // clause about this ghost only: skipped for loops that never update it
 }
 
 type Contract struct {
@@ -50,6 +51,7 @@ type Contract struct {
 type Ghost struct {
 	Name string
 	Sort string
+	Init string // value at function entry ("" = arbitrary)
 }
 
 type ContractFile struct {
@@ -1253,7 +1255,15 @@ func (cf *ContractFile) resolveApplies(funcNames []string) error {
 			mergeContract(ct, grp)
 		}
 		if n == 0 {
-			return fmt.Errorf("apply %s %s: no function matches", ap[0], ap[1])
+			// not a package function: a dependency named literally (e.g. (*strings.Builder).WriteString)
+			ct := cf.ByName[ap[1]]
+			if ct == nil {
+				ct = &Contract{Kind: "func", Name: ap[1], LoopInv: map[int][]*CExpr{}, LoopDec: map[int]*CExpr{},
+					Nilable: map[string]bool{}, NonNil: map[string]bool{}, Flags: map[string]string{}, Line: grp.Line}
+				cf.ByName[ap[1]] = ct
+				cf.Order = append(cf.Order, ct)
+			}
+			mergeContract(ct, grp)
 		}
 	}
 	return nil
